@@ -161,6 +161,16 @@ func (s *Store) AddSourceSnapshot(ckpt *jobpb.SourceRunnerCheckpointCompleteRequ
 	return nil
 }
 
+// DiscardPendingCheckpoint drops the checkpoint in progress, if any. The job
+// calls it when it deploys a new assembly: members of the previous assembly are
+// gone so their acknowledgements will never arrive, and while a checkpoint is
+// pending no new one can be created.
+func (s *Store) DiscardPendingCheckpoint() {
+	s.stateMu.Lock()
+	defer s.stateMu.Unlock()
+	s.state.pendingSnapshot = nil
+}
+
 func (s *Store) RegisterSourceSplitter(splitter connectors.SourceSplitter) {
 	s.stateMu.Lock()
 	defer s.stateMu.Unlock()
